@@ -1,5 +1,6 @@
 """Witness search for C14 (keyword half): every edition-2024 keyword through the real rename_keywords / as_field_name."""
 from __future__ import annotations
+import re
 from ..replay import run_test_module
 from .k import KW
 
@@ -33,8 +34,10 @@ def search(repo):
     res = {'cases': 0, 'mismatches': []}
     must = set(KW['strict'] + KW['reserved'])
     for line in outp.splitlines():
-        if not line.startswith('K|'):
+        m_ = re.match(r'^(?:test \S+ \.\.\. )?(K\|.*)$', line)
+        if not m_:
             continue
+        line = m_.group(1)
         _, k, r, f = line.split('|')
         res['cases'] += 1
         if k in must and (r == k or not legal_ident(r)):
